@@ -92,6 +92,9 @@ func (g *cfg) origX(t int64) int64 {
 	return g.O + floorDiv(t-g.O, g.W)*g.W
 }
 func (g *cfg) rewX(t int64) int64 {
+	if g.three { // since ee4a0eb: integer-µs floor arithmetic on the origin's phase — exact
+		return g.origX(t)
+	}
 	return (g.o + (epochX(t)-g.o)/g.s*g.s) * usPerSec
 }
 
@@ -115,7 +118,7 @@ func (g *cfg) classify(t, ov, nv int64) string {
 	if !g.isDt && !g.three && defaultOriginSec%g.s != 0 {
 		return fn + ":default-origin-2000-01-03-ignored"
 	}
-	if d := ov - nv; !within53(t) && d > -usPerSec && d < usPerSec {
+	if d := ov - nv; (!within53(t) || !within53(ov)) && d > -usPerSec && d < usPerSec { // input or bucket start beyond 2^53 µs
 		return fn + ":far-future-double-precision" // sub-second difference outside the exact range of binary64
 	}
 	if g.origX(t) == g.rewX(t) {
@@ -473,6 +476,25 @@ func runTimeCfg(g *cfg, nTs int) {
 	if g.noRows {
 		c.Tag(fn + ":rewritten-but-interval-not-evaluable")
 		c.Case(opLine, true)
+		// no model rows (width outside the modelled range); still: where DuckDB evaluates the original,
+		// the rewrite must agree
+		probe := []int64{0, 1700000000 * usPerSec, -1000000000 * usPerSec}
+		loadTs(probe)
+		ov, oerr := evalExpr(g.orig, probe)
+		nv, nerr := evalExpr(g.rew, probe)
+		for i, t := range probe {
+			if oerr[i] == "" && (nerr[i] != "" || ov[i] != nv[i]) {
+				key := fn + ":width-outside-int64-microseconds"
+				if nerr[i] == "" && g.s > 0 && g.s <= 9223372036854 { // the width itself still fits: an ordinary class
+					g.W = g.s * usPerSec
+					key = g.classify(t, ov[i].Int64, nv[i].Int64)
+				}
+				c.Tag("mismatch:" + key)
+				c.Fail(key, fmt.Sprintf("%s = %d for ts=%dµs but arc's rewrite %s = %d %s", g.orig, ov[i].Int64, t, g.rew, nv[i].Int64, nerr[i]),
+					fmt.Sprintf("SELECT epoch_us(%s) AS original, epoch_us(%s) AS rewritten FROM (SELECT make_timestamp(%d) AS ts, make_timestamp(%d) AS \"time\") t;", g.orig, g.rew, t, t))
+				break
+			}
+		}
 		return
 	}
 	ts := edgeTimestamps(g, nTs)
@@ -582,6 +604,13 @@ func tbConfig(amount string, unitw string, origin string, hasOrigin bool, style 
 	if g.kept {
 		return g
 	}
+	g.O = defaultOriginSec * usPerSec
+	if hasOrigin {
+		t, err := api.VerifParseTimeBucketOrigin(origin)
+		must(err)
+		g.o = t.Unix()
+		g.O = g.o*usPerSec + int64(t.Nanosecond()/1000)
+	}
 	// the width the REAL rewrite uses (same unit normalisation as rewriteTimeBucket) …
 	g.s = int64(api.VerifIntervalToSeconds(strings.TrimRight(amount, " \t"), strings.ToLower(strings.TrimSuffix(unitw, "s")))) // `(\d+)\s*`: trailing blanks are not captured
 	// … and DuckDB's own reading of the interval literal
@@ -594,13 +623,6 @@ func tbConfig(amount string, unitw string, origin string, hasOrigin bool, style 
 	if g.s <= 0 || g.s > 9e12 {
 		g.noRows = true
 		return g
-	}
-	g.O = defaultOriginSec * usPerSec
-	if hasOrigin {
-		t, err := api.VerifParseTimeBucketOrigin(origin)
-		must(err)
-		g.o = t.Unix()
-		g.O = g.o*usPerSec + int64(t.Nanosecond()/1000)
 	}
 	return g
 }
@@ -1000,11 +1022,16 @@ func runURLs(n int) {
 	if !ok1 || !ok2 || caseRep == callRep || caseExt == callExt {
 		panic("canonical URL-domain patterns are no longer rewritten: " + caseRep + " / " + caseExt)
 	}
-	c.Op("urlcfg u", caseRep)
-	c.Op("urlcfg u", caseExt)
-	// a differently named / cased call
-	if alt, ok := urlRewrite("regexp_replace( Referer , '" + patReplace + `' , '\1' )`); ok {
-		c.Op("urlcfg Referer", alt)
+	c.Op("urlcfg r u "+hx(callRep), caseRep)
+	c.Op("urlcfg e u "+hx(callExt), caseExt)
+	// a differently named / cased call, and the `\/` spelling of the same pattern
+	altCall := "regexp_replace( Referer , '" + patReplace + `' , '\1' )`
+	if alt, ok := urlRewrite(altCall); ok && alt != altCall {
+		c.Op("urlcfg r Referer "+hx(altCall), alt)
+	}
+	escCall := `REGEXP_EXTRACT(u, '^https?:\/\/(?:www\.)?([^\/]+)', 1)`
+	if alt, ok := urlRewrite(escCall); ok && alt != escCall {
+		c.Op("urlcfg e u "+hx(escCall), alt)
 	}
 	rep, err := strCol(callRep)
 	must(err)
@@ -1022,7 +1049,7 @@ func runURLs(n int) {
 			s = urls[i-1]
 			op = "url " + hx(s)
 		}
-		c.Op(op, fmt.Sprintf("rep=%s ext=%s case=%s", nullHex(rep[i]), nullHex(ext[i]), nullHex(cs[i])))
+		c.Op(op, fmt.Sprintf("rep=%s ext=%s caseR=%s caseE=%s", nullHex(rep[i]), nullHex(ext[i]), nullHex(cs[i]), nullHex(csE[i])))
 		c.Case(op, strings.HasPrefix(s, "http"))
 		if rep[i] != cs[i] {
 			key := classifyReplace(s)
@@ -1193,7 +1220,7 @@ func main() {
 	// amount spellings: leading zeros (Go must read them in base 10 like DuckDB), signs, blanks, decimals,
 	// exponents, hex-looking, underscores, very large — on every seed, with and without origin
 	spellings := []string{"010", "08", "09", "0015", "007", "030", "012", "0005", "00010", "0100", "000", "+5", " 5", "5.0", "1e1", "0x10", "1_0", "5 ", "-5",
-		"2147483647", "2147483648", "3000000000", "4294967296", "9223372036854775807", "9223372036854775808"}
+		"2147483647", "2147483648", "3000000000", "4294967296", "9223372036854775807", "9223372036854775808", "9223372036854", "9223372036855"}
 	spellInfo := map[string]string{}
 	for _, a := range spellings {
 		units := []string{"seconds", "minute", "hours"}
@@ -1214,6 +1241,10 @@ func main() {
 		}
 	}
 	c.Extra["amount_spellings"] = spellInfo
+	for _, a := range []string{"200000000", "15250284", "15250285", "3000000"} { // widths beyond int64 µs that DuckDB may still accept (days are stored separately)
+		runTimeCfg(tbConfig(a, "weeks", "", false, 1, "ts"), 20)
+		runTimeCfg(tbConfig(a, "weeks", "2024-01-01", true, 3, "ts"), 20)
+	}
 	// spellings the regex accepts / rejects
 	for _, u := range []string{"HOURS", "Hours", "hourS", "HOUR", "Minute"} {
 		runTimeCfg(tbConfig("3", u, "", false, 1, "ts"), 40)
